@@ -77,6 +77,7 @@ type Stream struct {
 	w      io.Writer
 	framec chan []byte
 	closec chan struct{}
+	donec  chan struct{}
 }
 
 // NewStream initializes a Stream with an io.Writer to log requests and
@@ -87,6 +88,7 @@ func NewStream(w io.Writer) *Stream {
 		w:      w,
 		framec: make(chan []byte),
 		closec: make(chan struct{}),
+		donec:  make(chan struct{}),
 	}
 
 	go s.loop()
@@ -95,6 +97,8 @@ func NewStream(w io.Writer) *Stream {
 }
 
 func (s *Stream) loop() {
+	defer close(s.donec)
+
 	for {
 		select {
 		case f := <-s.framec:
@@ -109,11 +113,22 @@ func (s *Stream) loop() {
 }
 
 // Close signals Stream to stop listening for frames in the log loop and stop writing logs.
+// Messages that are logged, and bodies that are read, after Close are no longer logged.
 func (s *Stream) Close() error {
 	s.closec <- struct{}{}
 	close(s.closec)
 
 	return nil
+}
+
+// send hands a frame to the log loop. Once the log loop has stopped nobody
+// receives from framec any more: the frame is dropped, so that logging a
+// message or reading a logged body never blocks on a closed stream.
+func (s *Stream) send(f []byte) {
+	select {
+	case s.framec <- f:
+	case <-s.donec:
+	}
 }
 
 func newFrame(id string, ft FrameType, mt MessageType, plen uint32) []byte {
@@ -134,7 +149,7 @@ func (s *Stream) sendHeader(id string, mt MessageType, key, value string) {
 	f = append(f, key[:kl]...)
 	f = append(f, value[:vl]...)
 
-	s.framec <- f
+	s.send(f)
 }
 
 func (s *Stream) sendData(id string, mt MessageType, i uint32, terminal bool, b []byte, bl int) {
@@ -149,7 +164,7 @@ func (s *Stream) sendData(id string, mt MessageType, i uint32, terminal bool, b 
 	f = append(f, byte(bl>>24), byte(bl>>16), byte(bl>>8), byte(bl))
 	f = append(f, b[:bl]...)
 
-	s.framec <- f
+	s.send(f)
 }
 
 // LogRequest writes an http.Request to Stream with an id unique for the request / response pair.
